@@ -13,10 +13,12 @@ package kit
 // (`!(a<=b)`, swapped operands, `.Abs()` vs. the if-negate idiom, helper extraction).
 
 import (
+	"fmt"
 	"go/constant"
 	"go/token"
 	"go/types"
 	"math"
+	"strings"
 
 	"golang.org/x/tools/go/ssa"
 )
@@ -32,16 +34,42 @@ const (
 	PxNil    // nil pointer / interface / func / map / slice
 	PxNonNil // some non-nil pointer / interface value
 	PxSym    // a symbolic non-nil object or address, identified by Sym ("recv", "recv.cfg.X")
+	PxFunc   // a function value: Fn with the values bound to its free variables
+	PxAddr   // the address of (a part of) a local: Alloc A, field/element path Path
+	PxAgg    // a struct value held field by field (Agg, indexed by field number; immutable)
 )
 
 // PxVal is an abstract value.
 type PxVal struct {
-	K   PxKind
-	I   int64
-	F   float64
-	B   bool
-	Sym string
+	K    PxKind
+	I    int64
+	F    float64
+	B    bool
+	Sym  string
+	Fn   *ssa.Function
+	Bind []PxVal
+	A    *ssa.Alloc
+	Path string
+	Agg  map[int]PxVal
 }
+
+// NonNilLike reports whether the value is known to be a non-nil reference.
+func (v PxVal) NonNilLike() bool {
+	switch v.K {
+	case PxNonNil, PxSym, PxFunc, PxAddr:
+		return true
+	}
+	return false
+}
+
+type pxCell struct {
+	A    *ssa.Alloc
+	Path string
+}
+
+// pxMem is the memory of the locals on one path: cells keyed by (alloc, field path). The cell
+// with path "!" marks an alloc whose address escaped to code that is not interpreted.
+type pxMem map[pxCell]PxVal
 
 func PxI(i int64) PxVal     { return PxVal{K: PxInt, I: i} }
 func PxB(b bool) PxVal      { return PxVal{K: PxBool, B: b} }
@@ -55,14 +83,50 @@ type PxFrame struct {
 	Depth int
 	env   map[ssa.Value]PxVal
 	tup   map[ssa.Value][]PxVal
-	mem   map[*ssa.Alloc]PxVal
+	mem   pxMem // shared by the frames of one path
+	free  map[*ssa.FreeVar]PxVal
 	vis   map[*ssa.BasicBlock]int
+	run   *PxRun
+}
+
+// CallFunc interprets the function value fv (a closure or function resolved on this path) on
+// the given arguments, on a copy of the current path's memory, and returns the result tuples
+// of all its returning paths. It lets a hook model a library function that calls back
+// (maps.DeleteFunc, slices.ContainsFunc, sort.Slice...). ok=false: not a known function value.
+func (fr *PxFrame) CallFunc(fv PxVal, args []PxVal) (results [][]PxVal, ok bool) {
+	if fv.K != PxFunc || fv.Fn == nil || len(fv.Fn.Blocks) == 0 || fr.run == nil {
+		return nil, false
+	}
+	r := fr.run
+	callee := newPxFrame(fv.Fn, fr.Depth+1)
+	callee.run = r
+	callee.mem = make(pxMem, len(fr.mem))
+	for k, v := range fr.mem {
+		callee.mem[k] = v
+	}
+	for k, p := range fv.Fn.Params {
+		if k < len(args) {
+			callee.env[p] = args[k]
+		}
+	}
+	if len(fv.Fn.FreeVars) > 0 {
+		callee.free = map[*ssa.FreeVar]PxVal{}
+		for k, v := range fv.Fn.FreeVars {
+			if k < len(fv.Bind) {
+				callee.free[v] = fv.Bind[k]
+			}
+		}
+	}
+	r.block(callee, fv.Fn.Blocks[0], nil, 0, func(res []PxVal, _ pxMem) {
+		results = append(results, res)
+	})
+	return results, true
 }
 
 func (fr *PxFrame) clone() *PxFrame {
 	n := &PxFrame{Fn: fr.Fn, Depth: fr.Depth,
 		env: make(map[ssa.Value]PxVal, len(fr.env)), tup: make(map[ssa.Value][]PxVal, len(fr.tup)),
-		mem: make(map[*ssa.Alloc]PxVal, len(fr.mem)), vis: make(map[*ssa.BasicBlock]int, len(fr.vis))}
+		mem: make(pxMem, len(fr.mem)), free: fr.free, vis: make(map[*ssa.BasicBlock]int, len(fr.vis)), run: fr.run}
 	for k, v := range fr.env {
 		n.env[k] = v
 	}
@@ -102,7 +166,7 @@ type PxConfig struct {
 	MaxVisits int
 	// MaxSteps bounds the total work (default 400000 instructions); see PxRun.Truncated.
 	MaxSteps int
-	MaxDepth int // call depth for Descend (default 4)
+	MaxDepth int // call depth for Descend (default 8)
 }
 
 // PxRun is one exploration.
@@ -120,6 +184,7 @@ func PathxExplore(fn *ssa.Function, args []PxVal, cfg *PxConfig) *PxRun {
 		return r
 	}
 	fr := newPxFrame(fn, 0)
+	fr.run = r
 	for i, p := range fn.Params {
 		if i < len(args) {
 			fr.env[p] = args[i]
@@ -135,6 +200,7 @@ func PathxExploreFrom(after ssa.Instruction, cfg *PxConfig) *PxRun {
 	r := newPxRun(cfg)
 	fn := after.Parent()
 	fr := newPxFrame(fn, 0)
+	fr.run = r
 	r.block(fr, after.Block(), nil, InstrIndex(after)+1, nil)
 	return r
 }
@@ -148,13 +214,13 @@ func newPxRun(cfg *PxConfig) *PxRun {
 		c.MaxSteps = 400000
 	}
 	if c.MaxDepth == 0 {
-		c.MaxDepth = 4
+		c.MaxDepth = 8
 	}
 	return &PxRun{cfg: &c}
 }
 
 func newPxFrame(fn *ssa.Function, depth int) *PxFrame {
-	return &PxFrame{Fn: fn, Depth: depth, env: map[ssa.Value]PxVal{}, tup: map[ssa.Value][]PxVal{}, mem: map[*ssa.Alloc]PxVal{}, vis: map[*ssa.BasicBlock]int{}}
+	return &PxFrame{Fn: fn, Depth: depth, env: map[ssa.Value]PxVal{}, tup: map[ssa.Value][]PxVal{}, mem: pxMem{}, vis: map[*ssa.BasicBlock]int{}}
 }
 
 // Get returns the abstract value of an operand on the current path.
@@ -171,7 +237,11 @@ func (r *PxRun) get(fr *PxFrame, v ssa.Value) PxVal {
 	case *ssa.Global:
 		return PxS("global:" + c.Name())
 	case *ssa.Function:
-		return PxS("func:" + c.Name())
+		return PxVal{K: PxFunc, Fn: c}
+	case *ssa.FreeVar:
+		if x, ok := fr.free[c]; ok {
+			return x
+		}
 	}
 	if r.cfg.Missing != nil {
 		if x, ok := r.cfg.Missing(fr, v); ok {
@@ -224,7 +294,7 @@ func (r *PxRun) end() { r.Paths++ }
 
 // block executes instructions of b from index idx. cont, when non-nil, receives the results
 // of a return (callee frame).
-func (r *PxRun) block(fr *PxFrame, b *ssa.BasicBlock, prev *ssa.BasicBlock, idx int, cont func([]PxVal)) {
+func (r *PxRun) block(fr *PxFrame, b *ssa.BasicBlock, prev *ssa.BasicBlock, idx int, cont func([]PxVal, pxMem)) {
 	if idx == 0 {
 		fr.vis[b]++
 		if fr.vis[b] > r.cfg.MaxVisits {
@@ -269,6 +339,8 @@ func (r *PxRun) block(fr *PxFrame, b *ssa.BasicBlock, prev *ssa.BasicBlock, idx 
 				return
 			}
 			other := fr.clone()
+			r.refine(fr, x.Cond, true)
+			r.refine(other, x.Cond, false)
 			r.block(fr, b.Succs[0], b, 0, cont)
 			r.block(other, b.Succs[1], b, 0, cont)
 			return
@@ -281,7 +353,7 @@ func (r *PxRun) block(fr *PxFrame, b *ssa.BasicBlock, prev *ssa.BasicBlock, idx 
 				res[k] = r.get(fr, rv)
 			}
 			if cont != nil {
-				cont(res)
+				cont(res, fr.mem)
 			} else {
 				if r.cfg.Return != nil {
 					r.cfg.Return(fr, x, res)
@@ -293,9 +365,20 @@ func (r *PxRun) block(fr *PxFrame, b *ssa.BasicBlock, prev *ssa.BasicBlock, idx 
 			r.end()
 			return
 		case *ssa.Store:
-			if a, ok := x.Addr.(*ssa.Alloc); ok && pxSimpleCell(a) {
-				fr.mem[a] = r.get(fr, x.Val)
+			addr, val := r.get(fr, x.Addr), r.get(fr, x.Val)
+			if addr.K == PxAddr {
+				fr.mem.store(addr.A, addr.Path, val)
+			} else {
+				r.escape(fr, val) // stored somewhere we do not model
 			}
+		case *ssa.Go, *ssa.Defer:
+			for _, a := range in.(ssa.CallInstruction).Common().Args {
+				r.escape(fr, r.get(fr, a))
+			}
+		case *ssa.MapUpdate:
+			r.escape(fr, r.get(fr, x.Value))
+		case *ssa.Send:
+			r.escape(fr, r.get(fr, x.X))
 		case *ssa.Call:
 			if r.call(fr, x, b, prev, i, cont) {
 				return // continuation took over the rest of the block
@@ -317,29 +400,6 @@ func (r *PxRun) block(fr *PxFrame, b *ssa.BasicBlock, prev *ssa.BasicBlock, idx 
 	r.end()
 }
 
-// pxSimpleCell: the alloc is only stored to and loaded from directly (no address escapes).
-func pxSimpleCell(a *ssa.Alloc) bool {
-	if a.Referrers() == nil {
-		return false
-	}
-	for _, ref := range *a.Referrers() {
-		switch rr := ref.(type) {
-		case *ssa.Store:
-			if rr.Addr != a {
-				return false
-			}
-		case *ssa.UnOp:
-			if rr.Op != token.MUL {
-				return false
-			}
-		case *ssa.DebugRef:
-		default:
-			return false
-		}
-	}
-	return true
-}
-
 func pxZero(t types.Type) PxVal {
 	switch u := t.Underlying().(type) {
 	case *types.Basic:
@@ -359,7 +419,7 @@ func pxZero(t types.Type) PxVal {
 
 // call evaluates a call instruction. It returns true when the remainder of the block has been
 // executed by a continuation (interprocedural descent).
-func (r *PxRun) call(fr *PxFrame, x *ssa.Call, b, prev *ssa.BasicBlock, i int, cont func([]PxVal)) bool {
+func (r *PxRun) call(fr *PxFrame, x *ssa.Call, b, prev *ssa.BasicBlock, i int, cont func([]PxVal, pxMem)) bool {
 	args := make([]PxVal, len(x.Call.Args))
 	for k, a := range x.Call.Args {
 		args[k] = r.get(fr, a)
@@ -382,16 +442,36 @@ func (r *PxRun) call(fr *PxFrame, x *ssa.Call, b, prev *ssa.BasicBlock, i int, c
 		set(res)
 		return false
 	}
-	if cal.Static != nil && len(cal.Static.Blocks) > 0 && fr.Depth < r.cfg.MaxDepth && r.cfg.Descend != nil && r.cfg.Descend(x, cal.Static) {
-		callee := newPxFrame(cal.Static, fr.Depth+1)
-		for k, p := range cal.Static.Params {
+	// the function to interpret: a static callee, or a function value resolved on this path
+	// (closure, bound method, function-typed parameter or field)
+	target := cal.Static
+	var binds []PxVal
+	if !x.Call.IsInvoke() {
+		if fv := r.get(fr, x.Call.Value); fv.K == PxFunc && fv.Fn != nil {
+			target, binds = fv.Fn, fv.Bind
+		}
+	}
+	if target != nil && len(target.Blocks) > 0 && fr.Depth < r.cfg.MaxDepth &&
+		(target.Synthetic != "" || (r.cfg.Descend != nil && r.cfg.Descend(x, target))) {
+		callee := newPxFrame(target, fr.Depth+1)
+		callee.run = r
+		callee.mem = fr.mem // one memory per path
+		for k, p := range target.Params {
 			if k < len(args) {
 				callee.env[p] = args[k]
 			}
 		}
+		if len(target.FreeVars) > 0 {
+			callee.free = map[*ssa.FreeVar]PxVal{}
+			for k, fv := range target.FreeVars {
+				if k < len(binds) {
+					callee.free[fv] = binds[k]
+				}
+			}
+		}
 		first := true
 		base := fr
-		r.block(callee, cal.Static.Blocks[0], nil, 0, func(res []PxVal) {
+		r.block(callee, target.Blocks[0], nil, 0, func(res []PxVal, mem pxMem) {
 			cur := base
 			if !first {
 				cur = base.clone()
@@ -401,6 +481,7 @@ func (r *PxRun) call(fr *PxFrame, x *ssa.Call, b, prev *ssa.BasicBlock, i int, c
 				cur = fr
 			}
 			first = false
+			cur.mem = mem
 			if len(res) == 1 {
 				cur.env[x] = res[0]
 			} else if len(res) > 1 {
@@ -410,46 +491,214 @@ func (r *PxRun) call(fr *PxFrame, x *ssa.Call, b, prev *ssa.BasicBlock, i int, c
 		})
 		return true
 	}
+	// not interpreted: whatever it was handed may be written or retained
+	for _, a := range args {
+		r.escape(fr, a)
+	}
 	return false
+}
+
+// escape: the value leaves the interpreted world; locals it points to become unknown.
+func (r *PxRun) escape(fr *PxFrame, v PxVal) {
+	switch v.K {
+	case PxAddr:
+		fr.mem[pxCell{v.A, "!"}] = PxVal{K: PxBool, B: true}
+	case PxFunc:
+		for _, b := range v.Bind {
+			r.escape(fr, b)
+		}
+	case PxAgg:
+		for _, e := range v.Agg {
+			r.escape(fr, e)
+		}
+	}
+}
+
+// refine records what taking a branch on an undetermined condition tells about its operands.
+func (r *PxRun) refine(fr *PxFrame, cond ssa.Value, val bool) {
+	if _, isConst := cond.(*ssa.Const); isConst {
+		return
+	}
+	fr.env[cond] = PxB(val)
+	switch x := cond.(type) {
+	case *ssa.UnOp:
+		if x.Op == token.NOT {
+			r.refine(fr, x.X, !val)
+		}
+	case *ssa.BinOp:
+		if x.Op != token.EQL && x.Op != token.NEQ {
+			return
+		}
+		eq := val == (x.Op == token.EQL)
+		for _, pair := range [][2]ssa.Value{{x.X, x.Y}, {x.Y, x.X}} {
+			c, isC := pair[1].(*ssa.Const)
+			if !isC {
+				continue
+			}
+			if _, isConst := pair[0].(*ssa.Const); isConst {
+				continue
+			}
+			cur := r.get(fr, pair[0])
+			if cur.K != PxUnknown {
+				continue
+			}
+			cv := pxConst(c)
+			switch {
+			case cv.K == PxNil && eq:
+				fr.env[pair[0]] = PxVal{K: PxNil}
+			case cv.K == PxNil && !eq:
+				fr.env[pair[0]] = PxVal{K: PxNonNil}
+			case (cv.K == PxInt || cv.K == PxBool) && eq:
+				fr.env[pair[0]] = cv
+			}
+		}
+	}
+}
+
+func pxSplit(path string) []string {
+	var out []string
+	for _, p := range strings.Split(path, ".") {
+		if p != "" {
+			out = append(out, p)
+		}
+	}
+	return out
+}
+
+func (m pxMem) tainted(a *ssa.Alloc) bool { _, t := m[pxCell{a, "!"}]; return t }
+
+func (m pxMem) store(a *ssa.Alloc, path string, v PxVal) {
+	if m.tainted(a) {
+		return
+	}
+	for k := range m {
+		if k.A == a && strings.HasPrefix(k.Path, path+".") {
+			delete(m, k)
+		}
+	}
+	m[pxCell{a, path}] = v
+}
+
+// load reads the cell (a, path); t is the type of the loaded value (for zero values).
+func (m pxMem) load(a *ssa.Alloc, path string, t types.Type) PxVal {
+	if m.tainted(a) {
+		return PxVal{}
+	}
+	// newer writes to parts of the cell
+	parts := map[string]bool{}
+	for k := range m {
+		if k.A == a && strings.HasPrefix(k.Path, path+".") {
+			rest := pxSplit(strings.TrimPrefix(k.Path, path))
+			if len(rest) > 0 {
+				parts[rest[0]] = true
+			}
+		}
+	}
+	base, have := m[pxCell{a, path}]
+	if len(parts) > 0 {
+		agg := map[int]PxVal{}
+		if have && base.K == PxAgg {
+			for i, e := range base.Agg {
+				agg[i] = e
+			}
+		}
+		st, _ := t.Underlying().(*types.Struct)
+		for p := range parts {
+			var idx int
+			if _, err := fmt.Sscan(p, &idx); err != nil {
+				continue
+			}
+			var ft types.Type = types.Typ[types.Invalid]
+			if st != nil && idx < st.NumFields() {
+				ft = st.Field(idx).Type()
+			}
+			agg[idx] = m.load(a, path+"."+p, ft)
+		}
+		return PxVal{K: PxAgg, Agg: agg}
+	}
+	if have {
+		return base
+	}
+	// a part of an enclosing cell written as a whole
+	segs := pxSplit(path)
+	for n := len(segs) - 1; n >= 0; n-- {
+		anc := ""
+		if n > 0 {
+			anc = "." + strings.Join(segs[:n], ".")
+		}
+		v, ok := m[pxCell{a, anc}]
+		if !ok {
+			continue
+		}
+		for _, seg := range segs[n:] {
+			var idx int
+			if _, err := fmt.Sscan(seg, &idx); err != nil || v.K != PxAgg {
+				return PxVal{}
+			}
+			e, ok := v.Agg[idx]
+			if !ok {
+				return pxZero(t) // only exact for the last segment; good enough
+			}
+			v = e
+		}
+		return v
+	}
+	return pxZero(t)
 }
 
 func (r *PxRun) compute(fr *PxFrame, v ssa.Value) PxVal {
 	switch x := v.(type) {
 	case *ssa.Alloc:
-		return PxVal{K: PxNonNil}
+		// a fresh, zeroed local
+		for k := range fr.mem {
+			if k.A == x {
+				delete(fr.mem, k)
+			}
+		}
+		return PxVal{K: PxAddr, A: x}
 	case *ssa.FieldAddr:
 		base := r.get(fr, x.X)
-		if base.K == PxSym {
+		switch base.K {
+		case PxSym:
 			if f := FieldOfAddr(x); f != nil {
 				return PxS(base.Sym + "." + f.Name())
 			}
+		case PxAddr:
+			return PxVal{K: PxAddr, A: base.A, Path: fmt.Sprintf("%s.%d", base.Path, x.Field)}
 		}
 		return PxVal{K: PxNonNil}
 	case *ssa.Field:
 		base := r.get(fr, x.X)
-		if base.K == PxSym {
+		switch base.K {
+		case PxSym:
 			if f := FieldOfAddr(x); f != nil {
 				return r.load(fr, base.Sym+"."+f.Name(), x)
 			}
+		case PxAgg:
+			if e, ok := base.Agg[x.Field]; ok {
+				return e
+			}
+			return pxZero(x.Type())
 		}
 		return PxVal{}
 	case *ssa.IndexAddr:
+		base := r.get(fr, x.X)
+		if base.K == PxAddr {
+			if idx := r.get(fr, x.Index); idx.K == PxInt {
+				return PxVal{K: PxAddr, A: base.A, Path: fmt.Sprintf("%s.%d", base.Path, idx.I)}
+			}
+			r.escape(fr, base) // element not identifiable: the local is no longer tracked
+		}
 		return PxVal{K: PxNonNil}
 	case *ssa.UnOp:
 		switch x.Op {
 		case token.MUL:
-			if a, ok := x.X.(*ssa.Alloc); ok {
-				if !pxSimpleCell(a) {
-					return PxVal{}
-				}
-				if mv, ok := fr.mem[a]; ok {
-					return mv
-				}
-				return pxZero(a.Type().(*types.Pointer).Elem())
-			}
 			addr := r.get(fr, x.X)
-			if addr.K == PxSym {
+			switch addr.K {
+			case PxSym:
 				return r.load(fr, addr.Sym, x)
+			case PxAddr:
+				return fr.mem.load(addr.A, addr.Path, x.Type())
 			}
 			return PxVal{}
 		case token.NOT:
@@ -503,6 +752,7 @@ func (r *PxRun) compute(fr *PxFrame, v ssa.Value) PxVal {
 	case *ssa.ChangeType:
 		return r.get(fr, x.X)
 	case *ssa.MakeInterface:
+		r.escape(fr, r.get(fr, x.X))
 		return PxVal{K: PxNonNil}
 	case *ssa.ChangeInterface:
 		return r.get(fr, x.X)
@@ -516,12 +766,19 @@ func (r *PxRun) compute(fr *PxFrame, v ssa.Value) PxVal {
 			return o
 		}
 		return PxVal{}
+	case *ssa.MakeClosure:
+		fn, _ := x.Fn.(*ssa.Function)
+		binds := make([]PxVal, len(x.Bindings))
+		for k, bv := range x.Bindings {
+			binds[k] = r.get(fr, bv)
+		}
+		return PxVal{K: PxFunc, Fn: fn, Bind: binds}
 	case *ssa.Extract:
 		if t, ok := fr.tup[x.Tuple]; ok && x.Index < len(t) {
 			return t[x.Index]
 		}
 		return PxVal{}
-	case *ssa.MakeClosure, *ssa.MakeMap, *ssa.MakeChan, *ssa.MakeSlice:
+	case *ssa.MakeMap, *ssa.MakeChan, *ssa.MakeSlice:
 		return PxVal{K: PxNonNil}
 	case *ssa.Slice:
 		return PxVal{}
@@ -582,7 +839,7 @@ func pxBinOp(x *ssa.BinOp, a, b PxVal) PxVal {
 		switch {
 		case a.K == PxNil && b.K == PxNil:
 			eq, known = true, true
-		case a.K == PxNil && (b.K == PxNonNil || b.K == PxSym), b.K == PxNil && (a.K == PxNonNil || a.K == PxSym):
+		case a.K == PxNil && b.NonNilLike(), b.K == PxNil && a.NonNilLike():
 			eq, known = false, true
 		case a.K == PxSym && b.K == PxSym && a.Sym == b.Sym:
 			eq, known = true, true
